@@ -44,7 +44,7 @@ const int kToken = 0;       // &kToken is the Event::extra of every run() call
 // setInitState and setSubStateMachine calls are interleaved as the scenario says, also between two lives of the
 // machines (stop(); newState/addRoute/...; start()).  The reference resolves every state id at run time.
 struct DRoute { int ev, to; bool guarded; uint32_t gmask; bool act; bool early0; };   // early0: target 0 was not (yet) user-defined when the route was added
-struct DHandler { int ev, to; uint32_t tmask; int ver; };   // ver: 0 for the first addEvent() of this (state, event), +1 for every re-registration
+struct DHandler { int ev, to; uint32_t tmask; int ver; bool to_unknown_at_reg; };   // ver: 0 for the first addEvent() of this (state, event), +1 for every re-registration
 inline int hkey(const DHandler &h) { return h.ev + 8 * h.ver; }   // identity of a handler in the trace / hook table
 struct DState {
   int id; bool en, ex; int sub; int dups = 0;
@@ -75,13 +75,12 @@ struct Def {
 
 // table-driven guard / handler results: pure functions of (definition, event, index of the top-level call).
 // They do NOT depend on how often they were called, so that extra guard evaluations (left free) cannot
-// change later behaviour.  A handler names its target by id; the id is resolved when the handler runs: a target
-// that is not (yet) defined and is not 0 makes the handler decline (returning an unknown id is undocumented).
+// change later behaviour.  A handler names its target by id; the id is resolved when the handler runs, so a
+// state declared later is a valid target from then on; a target >= 1 that is not a state of the machine at that
+// moment is refused by run() (see Ref::run).
 bool gval(const DRoute &r, int ev, int step) { return (r.gmask >> ((ev * 7 + step) & 15)) & 1; }
-int hval(const DHandler &h, int ev, int step, const DMach &dm) {
-  int t = ((h.tmask >> ((ev * 3 + step) & 7)) & 1) ? h.to : -1;
-  if (t > 0 && !dm.find(t)) t = -1;
-  return t;
+int hval(const DHandler &h, int ev, int step, const DMach &) {
+  return ((h.tmask >> ((ev * 3 + step) & 7)) & 1) ? h.to : -1;
 }
 
 // ----------------------------------------------------------------------------------------------------- trace
@@ -148,6 +147,7 @@ struct Ref {
       self_trans = false, stale_sub_parent_handles = false, handler_default = false, user_term = false, trans_in_depth3 = false;
   int transitions = 0, free_results = 0, top_starts = 0;
   bool replaced_handler_asked = false, replaced_default_asked = false;   // the handler consulted had replaced an earlier one
+  bool unknown_handler_target = false, late_declared_handler_target = false; int last_unknown_call = -1;
   bool early_route_late0 = false;   // a route registered before newState(0, ...) led into the user-defined state 0
   // run() is documented to return "whether the state changed".  When a sub-machine changed state, thereby
   // terminated, and the machine itself then finds no transition for the same event, neither answer is fixed by
@@ -215,6 +215,15 @@ struct Ref {
       target = hval(*h, e, step, dm);
       bool route_would_match = false;
       for (auto &rt : s->routes) if ((rt.ev == 0 || rt.ev == e) && (!rt.guarded || gval(rt, e, step))) route_would_match = true;
+      if (target > 0 && !dm.find(target)) {
+        // The handler picked an id that is not a state of this machine (never declared, or not declared yet): the
+        // event is refused -- run() returns false, no route is tried, no action / notification runs, the state is
+        // unchanged -- and the machine stays fully usable for every later call.
+        unknown_handler_target = true; last_unknown_call = step;
+        res_free = sub_changed;
+        return false;
+      }
+      if (target > 0 && h->to_unknown_at_reg) late_declared_handler_target = true;
       if (target >= 0 && route_would_match) override_ = true;
       if (target < 0 && route_would_match) fallthrough = true;
     }
@@ -445,7 +454,8 @@ struct Driver {
         int n = (int)m.states.size();
         if (!n) break;
         DState &st = m.states[op.in(1, 0, n - 1)];
-        DHandler h{(int)op.in(2, 0, 4), (int)op.in(3, 0, 5), (uint32_t)op.in(4, 0, 255), 0};
+        DHandler h{(int)op.in(2, 0, 4), (int)op.in(3, 0, 5), (uint32_t)op.in(4, 0, 255), 0, false};
+        h.to_unknown_at_reg = h.to > 0 && !m.find(h.to);
         // a second addEvent() for the same (state, event) REPLACES the handler (specific events and the any-event
         // slot alike): the reference keeps the last one registered
         DHandler *old = nullptr;
@@ -537,7 +547,14 @@ struct Driver {
 };
 
 std::string run(const Scenario &scn, CaseInfo &info) {
-  Driver D;
+  // The machines of a failing case are never destroyed: ~StateMachine asserts (abort) on a machine whose recursion
+  // counter is stuck, which would replace the diagnosis of the first divergence by a bare crash.  They are parked in
+  // a static list (reachable, so LeakSanitizer stays quiet).
+  struct Holder {
+    Driver *p; bool ok = false;
+    ~Holder() { static auto *graveyard = new std::vector<Driver*>; if (ok) delete p; else graveyard->push_back(p); }   // the list itself is never destroyed either
+  } holder{new Driver};
+  Driver &D = *holder.p;
   Def &d = D.d; Ref &ref = D.ref;
   int ncalls = 0;
   for (auto &op : scn.ops) {
@@ -601,6 +618,10 @@ std::string run(const Scenario &scn, CaseInfo &info) {
   info.cls_if(D.dup_state, "duplicate_newState_refused");
   info.cls_if(D.init_twice, "setInitState_called_again");
   info.cls_if(D.sub_replaced, "submachine_replaced_by_second_setSubStateMachine");
+  info.cls_if(ref.unknown_handler_target, "handler_picked_id_that_is_not_a_state");
+  info.cls_if(ref.unknown_handler_target && ref.last_unknown_call + 1 < ncalls, "calls_after_refused_handler_target");
+  info.cls_if(ref.late_declared_handler_target, "handler_target_declared_after_the_handler");
+  holder.ok = true;
   info.nontrivial = ref.max_depth_active >= 2 && ref.competing && ref.override_ && ref.stop_active_sub;
   return "";
 }
@@ -679,7 +700,7 @@ SubDef def = [] {
         int64_t sidx = rng(0, n - 1);
         if (!hreg[k].empty() && rng(0, 99) < reuse_pct) { auto &pr = hreg[k][rng(0, (int64_t)hreg[k].size() - 1)]; sidx = pr.first; ev = pr.second; }   // register again: replaces the handler
         hreg[k].push_back({sidx, ev});
-        int64_t to = pick({{1, 0}, {12, -1}}); if (to < 0) to = ids[rng(0, (int64_t)ids.size() - 1)];   // possibly a state declared later
+        int64_t to = pick({{1, 0}, {12, -1}, {3, -2}}); if (to == -1) to = ids[rng(0, (int64_t)ids.size() - 1)]; else if (to == -2) to = rng(1, 5);   // possibly a state declared later, or never
         int64_t tm = pick({{2, 0}, {1, 255}, {7, -1}}); if (tm < 0) tm = rng(0, 255);
         mk(HANDLER, {k, sidx, ev, to, tm});
       };
